@@ -927,11 +927,24 @@ def guard_interval(fn, val, target, width=32):
            'eq': 'ne', 'ne': 'eq'}
     want = fn.sources(val)
     excluded = set()
+    v_, val_narrowed = val, False
+    while isinstance(v_, str) and v_ in fn.insts and fn.insts[v_].op in fn.PASS_OPS:
+        if fn.insts[v_].op == 'trunc':
+            val_narrowed = True     # the value asked about is itself the narrow copy
+        v_ = fn.insts[v_].ops[0]
     for ic in fn.order:
         if ic.op != 'icmp':
             continue
         c = const_int(ic.ops[1])
         if c is None or fn.sources(ic.ops[0]) != want:
+            continue
+        # a comparison of a narrowed copy says nothing about the bits that were cut off
+        x_, narrowed = ic.ops[0], False
+        while isinstance(x_, str) and x_ in fn.insts and fn.insts[x_].op in fn.PASS_OPS:
+            if fn.insts[x_].op == 'trunc':
+                narrowed = True
+            x_ = fn.insts[x_].ops[0]
+        if narrowed and not val_narrowed:
             continue
         if fn.on_edge(ic.id, True, target):
             tighten(ic.pred, c)
@@ -1183,6 +1196,14 @@ def init_covers(ctx, rule, view, init_name, user_names, what):
     ini = ctx.need_fn(view, init_name)
     iroot = ini.params[0]['id'] if ini.params else 'a0'
     written = object_field_paths(ini, iroot, store=True)
+    all_written = {}
+    for i_ in ini.order:
+        ptr = i_.ops[1] if i_.op == 'store' else (i_.args[0] if i_.op == 'call' and (i_.callee or '').startswith(('llvm.memcpy', 'llvm.memset', 'llvm.memmove')) else None)
+        if ptr is None:
+            continue
+        ap_ = ini.ap(ptr)
+        if ap_.fields and same_value(ini, ap_.root, iroot):
+            all_written.setdefault(tuple(ap_.fields), []).append(i_)
     ctx.ob(rule, '%s: initialiser writes the object' % init_name, len(written) >= 1, 'stores through the object parameter', loc=ini.loc)
     n = 0
     seen = set()
@@ -1196,6 +1217,14 @@ def init_covers(ctx, rule, view, init_name, user_names, what):
             n += 1
             cov = [w for w in written if path[:len(w)] == w]
             short = '.'.join(x.split('.', 1)[-1] for x in path)
+            if cov:
+                # ... on every path to a successful return (a return of a non-zero constant is a rejected initialisation)
+                sts = [i_ for i_ in ini.order for w in cov if i_ in all_written.get(w, [])]
+                for val, anchor in ret_cases(ini):
+                    if const_int(val) not in (None, 0):
+                        continue
+                    if reaches_point(ini, ini.entry_inst(), anchor, blocked=sts, include_start=True):
+                        cov = []
             ctx.ob(rule, '%s sets %s before any operation reads it' % (init_name, short), bool(cov),
                    '%s: an object placed in recycled (non-zero) memory starts from whatever the previous owner left in a field the '
                    'initialiser skips' % what, loc=ini.loc, detail='read by %s at %s' % (un, ins.loc))
@@ -1396,11 +1425,13 @@ def native_forwarding(ctx, rule, fl, select, floor=1):
         if not select(n):
             continue
         want = NATIVE_FORWARD_EXCEPTIONS.get(n, n + '_body')
-        if want not in raw.functions:
-            continue        # implemented in place (no separate body): decided by the rules that analyse it
         f = ctx.need_fn(v, n)
-        n_sel += 1
         bc = [c for c in f.calls() if c.callee and c.callee.endswith('_body')]
+        if want not in raw.functions and not bc:
+            continue        # implemented in place (no separate body): decided by the rules that analyse it
+        # (a body that is defined but no longer emitted because this entry point stopped calling it still counts: the entry
+        # point then reaches a sibling's body, which the first obligation reports)
+        n_sel += 1
         ctx.ob(rule, '%s reaches %s only' % (n, want), [c.callee for c in bc] == [want],
                'the public entry point calls the implementation of the same name, once, and no sibling', loc=f.loc,
                detail='calls ' + ', '.join(c.callee for c in bc))
